@@ -36,6 +36,24 @@ def facts(c):
     return True
 
 
+def prioritise(c, ops_f, impl_f, model_f):
+    """cases are independent (each starts with `reset`): move the cases in which the implementation's own oracle
+    failed to the front of all three streams, so that concrete failing inputs are shrunk and reported first"""
+    ops, impl, model = (open(f).read().splitlines() for f in (ops_f, impl_f, model_f))
+    if not (len(ops) == len(impl) == len(model)):
+        return ops_f, impl_f, model_f
+    cases = vcheck.split_cases(ops)
+    head = list(range(0, cases[0][0])) if cases else []
+    bad = lambda ab: any(impl[i].startswith(("FAIL", "panic")) for i in range(*ab))  # noqa: E731
+    order = head + [i for ab in sorted(cases, key=lambda ab: 0 if bad(ab) else 1) for i in range(*ab)]
+    out = []
+    for name, lines in (("p.ops", ops), ("p.impl", impl), ("p.model", model)):
+        f = os.path.join(c.work, name)
+        open(f, "w").write("\n".join(lines[i] for i in order) + "\n")
+        out.append(f)
+    return out
+
+
 def run(a):
     c = Check(PID, a.tier, a.seed)
     c.cov["rule"] = ("stateful cases (reset; layout/split/put/txn set-up; one action): run = REAL rangetask.Runner with a recording handler "
@@ -62,6 +80,7 @@ def run(a):
                 c.cov["input_distribution"] = st
                 m = c.run_model(exe, ops)
                 if m:
+                    ops, impl, m = prioritise(c, ops, impl, m)
                     c.diff(ops, impl, m, stateful=True, hbin=hbin, exe=exe)
                     c.cov["programs"] = 4
                     c.cov["exhaustive"] = False
